@@ -27,8 +27,15 @@ func init() {
 		Assumptions: []string{
 			"the package model is harness/refint (packages are tables; use-package copies the exported bindings present at that moment; a function body runs with its defining package current; load restores the package)",
 		},
-		Cases:       func(tier string) int { return pick(tier, 16000, 500000) },
-		Run:         c08Run,
+		Cases: func(tier string) int { return c08MainCases(tier) + c08RefusedCases(tier) },
+		Run: func(w *fw.W, idx int) {
+			if base := c08MainCases(w.Tier); idx >= base {
+				c08RefusedRun(w, idx-base) // c08_refused.go; appended, the main family keeps its indices
+				return
+			}
+			c08Run(w, idx)
+		},
+		Driver:      c08Driver,
 		MinDistinct: func(tier string) int { return pick(tier, 600, 1200) },
 	})
 }
@@ -40,6 +47,7 @@ type c08Gen struct {
 	cur    string
 	kinds  []string
 	depth  int
+	ref    *c08Ref // histories with refused package operations (c08_refused.go); nil in the main family
 }
 
 // the last two are names the language package exports: a package may bind them itself
@@ -66,6 +74,9 @@ func (g *c08Gen) stmt() *sx.N {
 		add("in-package")
 		p := g.pkgRef()
 		g.cur = p
+		if g.ref != nil {
+			g.ref.entered[p] = true
+		}
 		if g.r.Bool() {
 			return sx.Call("in-package", sx.QY(p))
 		}
@@ -161,6 +172,9 @@ func (g *c08Gen) stmt() *sx.N {
 		default:
 			// a chain through another package, built in one statement
 			p2 := g.pkgRef()
+			if g.ref != nil {
+				g.ref.entered[p2] = true
+			}
 			third := fw.Pick(g.r, c08Names)
 			inner := mk(third)
 			if g.r.Chance(1, 3) {
@@ -322,6 +336,10 @@ func c08Run(w *fw.W, idx int) {
 		if rp == nil {
 			continue
 		}
+		if miss := c08LangMissing(reg.Package("lisp"), rp); len(miss) > 0 {
+			w.Violation("package-lacks-language-exports", fmt.Sprintf("package %s exists and lacks %d of the language package's exports (first: %s)", pn, len(miss), miss[0]), detail())
+			return
+		}
 		var rs, ms []string
 		for _, s := range rp.SymbolNames() {
 			if !langSyms[s] || c08IsPool(s) {
@@ -397,6 +415,12 @@ func c08TagKind(k string) string {
 		return "load-string"
 	case "k":
 		return "constant-binding"
+	case "refused":
+		return "value-of-guarded-refused-call"
+	case "use":
+		return "use-package"
+	case "obs":
+		return "final-observation"
 	}
 	return "trace"
 }
